@@ -43,7 +43,7 @@ func (P) Engine() string { return "E2r" }
 
 func (P) Describe() harness.Description {
 	return harness.Description{
-		MustHit: []string{"request_on_the_budget_resource", "outlier_breakers_checked_at_rest", "trace_error_on_an_entry_of_another_caller", "per_value_caches_smaller_than_the_value_set", "request_raced_with_rule_switch", "both_rule_lists_observed", "getter_ran_concurrently", "stable_resource_checked"},
+		MustHit: []string{"request_on_the_budget_resource", "fresh_value_checked_at_rest", "outlier_breakers_checked_at_rest", "trace_error_on_an_entry_of_another_caller", "per_value_caches_smaller_than_the_value_set", "request_raced_with_rule_switch", "both_rule_lists_observed", "getter_ran_concurrently", "stable_resource_checked"},
 		Level:   "exploration",
 		Rule: "case = 3-6 simulated callers with 4-14 operations each: traffic (Entry with arguments / TraceError / Exit on a flow-churned, an isolation-churned, a hotspot-churned, a stable-blocking and a free resource), rule churn (LoadRulesOfResource switching among four distinguishable rule lists (2-3 rules each, exactly one always-blocking rule block<n> at a different position, the others never blocking; switches keep, move, drop and add controllers) for flow, isolation and hotspot; whole-set LoadRules / ClearRules for circuit breaker, system and outlier on other resources), readers (all GetRules / GetRulesOfResource, resource node list and statistics getters). " +
 			"The worker is built with -race; the seeded scheduler (random walk / PCT) picks the runner at every atomic access and lock operation. Oracles: (1) any race-detector report ends the run as a violation (replay = the regenerated case and its seeded schedule); (2) no panic escapes, no deadlock among the callers, every caller finishes; (3) every request on a churned resource is blocked by a block<n> rule - never admitted and never blocked by anything else (a mixed reading of two lists); (4) requests on the stable and the free resource are decided as if there were no churn. " +
@@ -66,6 +66,11 @@ const (
 	// reasons: list 0 = [per-user, threshold 2, used up at start], list 1 = [per-user, threshold 100; deny-tenant,
 	// threshold 0 on the second argument]. A request decided by list 0's controllers on list 1's budget is admitted.
 	rBudget = "churn-budget"
+	// rBudget2: one hot-parameter rule whose threshold the churn moves between 1000 and 1 (the same rule, edited);
+	// every request on it carries a value nobody has used before. At rest, under the threshold-1 rule, a value
+	// that was used once has at most one token left (its one request may have fallen between the copy of the
+	// budget and the switch) - the new rule never decides on a budget of 1000 written by the old one.
+	rBudget2 = "churn-budget2"
 )
 
 var resNames = []string{rFlow, rIso, rHot, rStable, rFree}
@@ -101,6 +106,10 @@ func (P) Gen(rng *sim.Rng, tier string) *harness.Case {
 						callers[i] = append(callers[i], harness.Op{K: "breq"})
 						continue
 					}
+					if rng.Chance(0.2) {
+						callers[i] = append(callers[i], harness.Op{K: "breq2", N: uint64(i*100 + j)})
+						continue
+					}
 					if rng.Chance(0.3) {
 						// TraceError on an entry another caller holds (and may be exiting at the same moment)
 						callers[i] = append(callers[i], harness.Op{K: "xtrace", R: rng.Intn(k), E: rng.Intn(3)})
@@ -119,7 +128,7 @@ func (P) Gen(rng *sim.Rng, tier string) *harness.Case {
 					callers[i] = append(callers[i], op)
 				}
 			case 1: // churn: R selects the module, N the list
-				callers[i] = append(callers[i], harness.Op{K: "churn", R: rng.Intn(7), N: uint64(rng.Intn(4)), F: rng.Chance(0.15)})
+				callers[i] = append(callers[i], harness.Op{K: "churn", R: rng.Intn(8), N: uint64(rng.Intn(4)), F: rng.Chance(0.15)})
 			default: // reader
 				callers[i] = append(callers[i], harness.Op{K: "read", R: rng.Intn(9)})
 			}
@@ -176,6 +185,14 @@ func budgetList(n uint64) []*hotspot.Rule {
 		return []*hotspot.Rule{per(2)}
 	}
 	return []*hotspot.Rule{per(100), {ID: "deny-tenant", Resource: rBudget, MetricType: hotspot.QPS, ControlBehavior: hotspot.Reject, ParamIndex: 1, Threshold: 0, DurationInSec: 1000000, SpecificItems: map[interface{}]int64{}}}
+}
+
+func budget2List(n uint64) []*hotspot.Rule {
+	t := int64(1000)
+	if n%2 == 1 {
+		t = 1
+	}
+	return []*hotspot.Rule{{ID: "per-value", Resource: rBudget2, MetricType: hotspot.QPS, ControlBehavior: hotspot.Reject, ParamIndex: 0, Threshold: t, DurationInSec: 1000000, SpecificItems: map[interface{}]int64{}}}
 }
 
 func isoList(n uint64) []*isolation.Rule {
@@ -260,6 +277,7 @@ func (P) Exec(c *harness.Case) *harness.Outcome {
 		// the free resource carries a hot-parameter CONCURRENCY rule that never blocks: every admitted request on it
 		// looks its value up in the per-value counter cache on entry, on pass and on completion
 		_, _ = hotspot.LoadRulesOfResource(rFree, []*hotspot.Rule{{ID: "free-conc", Resource: rFree, MetricType: hotspot.Concurrency, ParamIndex: 0, Threshold: 1000000}})
+		_, _ = hotspot.LoadRulesOfResource(rBudget2, budget2List(0))
 		_, _ = hotspot.LoadRulesOfResource(rBudget, budgetList(0))
 		for i := 0; i < 2; i++ {
 			if e, _ := sentinel.Entry(rBudget, harness.EntryOpts(1, false, []interface{}{"u1", "t1"}, nil, nil)...); e != nil {
@@ -286,6 +304,7 @@ func (P) Exec(c *harness.Case) *harness.Outcome {
 	shared := make([][8]atomic.Pointer[base.SentinelEntry], k)
 	xtraces := make([]int, k)
 	budgetLeaks, budgetReqs := make([]int, k), make([]int, k)
+	fresh := make([][]string, k)
 	harness.RunE2(c, o, "C15", env.Clock, k, func(task int) {
 		var held []*base.SentinelEntry
 		for _, op := range c.Callers[task] {
@@ -326,6 +345,12 @@ func (P) Exec(c *harness.Case) *harness.Outcome {
 					e.Exit()
 				}
 				budgetReqs[task]++
+			case "breq2":
+				v := fmt.Sprintf("fresh-%d", op.N)
+				if e, _ := sentinel.Entry(rBudget2, harness.EntryOpts(1, false, []interface{}{v}, nil, nil)...); e != nil {
+					e.Exit()
+				}
+				fresh[task] = append(fresh[task], v)
 			case "oreq":
 				if e, _ := sentinel.Entry(rOther, sentinel.WithSlotChain(osc)); e != nil {
 					_ = e.Context().FilterNodes()
@@ -360,6 +385,8 @@ func (P) Exec(c *harness.Case) *harness.Outcome {
 					}
 				case 6:
 					_, _ = hotspot.LoadRulesOfResource(rBudget, budgetList(op.N))
+				case 7:
+					_, _ = hotspot.LoadRulesOfResource(rBudget2, budget2List(op.N))
 				case 4:
 					if op.F {
 						_ = system.ClearRules()
@@ -473,6 +500,35 @@ func (P) Exec(c *harness.Case) *harness.Outcome {
 		}
 		if leaks > 0 {
 			o.Fail("C15.mixed-rule-list", 0, "%d of %d requests on %s were admitted: its old rule list (per-user threshold 2, used up) rejects them and its new one (per-user threshold 100, deny-tenant threshold 0) rejects them - they were decided by controllers of one list on the token budget of the other", leaks, reqs, rBudget)
+			return o
+		}
+	}
+	// at rest, under the threshold-1 rule: no value used once during the run is admitted more than once
+	{
+		var passed int
+		var which string
+		if !harness.Call(o, "C15.panic", 0, func() {
+			_, _ = hotspot.LoadRulesOfResource(rBudget2, budget2List(1))
+			for _, vs := range fresh {
+				for _, v := range vs {
+					n := 0
+					for i := 0; i < 3; i++ {
+						if e, _ := sentinel.Entry(rBudget2, harness.EntryOpts(1, false, []interface{}{v}, nil, nil)...); e != nil {
+							e.Exit()
+							n++
+						}
+					}
+					if n > passed {
+						passed, which = n, v
+					}
+					o.Probe("fresh_value_checked_at_rest")
+				}
+			}
+		}) {
+			return o
+		}
+		if passed > 1 {
+			o.Fail("C15.new-rule-on-the-old-rules-budget", 0, "%s carries one hot-parameter rule whose threshold the run moved between 1000 and 1 per 1000000 s; at rest, with the threshold-1 rule in force, the value %q - used exactly once during the run - was admitted %d more times of 3: the rule in force decides on a budget the replaced rule wrote (a request that raced with the switch may add one, never more)", rBudget2, which, passed)
 			return o
 		}
 	}
